@@ -111,6 +111,7 @@ def _matches(s, f):
 def check_case(ctx, c):
     from dateparser.date import DateDataParser
 
+    ctx.remember(check_case, c)
     s, exp, exp_period, fmt = expected(c)
     st = {"RELATIVE_BASE": parse_iso(c["base"]), "PREFER_DAY_OF_MONTH": c["pd"], "PREFER_MONTH_OF_YEAR": c["pm"]}
     if c["rtp"]:
@@ -197,6 +198,7 @@ def run_shard(ctx, desc):
             rnd = rng(ctx.seed, "C08", desc["i"])
             for _ in range(desc["n"]):
                 check_case(ctx, gen_random(rnd))
+        ctx.reask()
     finally:
         ac.stop()
     for k, v in ac.counts.items():
